@@ -1,6 +1,7 @@
 """C10 - restarting from persisted state is safe at every crash point (structural part)."""
 from engine import *
 import re
+import chainrules
 
 CM = 'lightning::ln::channelmanager::ChannelManager::'
 FC = 'lightning::ln::channel::FundedChannel::'
@@ -416,5 +417,6 @@ RULES = [
 	('10.j', 'every holder-commitment monitor update variant carries the claimed outbound HTLCs (sibling arms agree)', r10j),
 	('10.k', 'deserialization: legacy in-flight map only when the new one is absent; closed-monitor tracking threshold equals the run-time one', r10k),
 	('10.l', 'a fulfilled payment is forgotten only once none of its HTLCs is outstanding (it guards the restart rebuild)', r10l),
+	('10.m', 'restart-time replay of on-chain HTLC failures: waits for maturity; compares a confirmed counterparty commitment (current or previous) with its own HTLC list', lambda F: chainrules.restart_replay_guard(F, '10.m')),
 	('10.d', 'startup-only helpers are reachable only from the restart routine; reconstruction calls exist', r10d),
 ]
